@@ -319,6 +319,7 @@ package ro
 //@   props C01 C09
 //@   binds destination subscribe
 //@   calls fn:subscribe
+//@   params ctx destination
 //@   track callfn.subscribe
 //@   ensures [adapter-hands-the-destination-over|C01] trace(callfn.subscribe(destination)) && result == res(callfn.subscribe)
 
